@@ -122,12 +122,7 @@ impl ExchCfg {
             None => req.build_prepare()?,
         };
         let mut f = f.proceed();
-        let mut buf = vec![0u8; 16384];
-        let n = f.write(&mut buf).map_err(|e| format!("request is not writable: {:?}", e))?;
-        if !f.can_proceed() {
-            return Err("canonical head write did not complete the head".into());
-        }
-        let ref_head = buf[..n].to_vec();
+        let ref_head = crate::driver::write_whole_head(&mut f).map_err(|e| format!("request is not writable: {}", e))?;
         let eff_has = |name: &str| req.added.iter().chain(req.orig.iter()).any(|(k, _)| k.eq_ignore_ascii_case(name));
         let te_chunked = req.added.iter().chain(req.orig.iter()).any(|(k, v)| k.eq_ignore_ascii_case("transfer-encoding") && v.eq_ignore_ascii_case(b"chunked"));
         let req_chunked = te_chunked || !eff_has("content-length");
